@@ -98,10 +98,18 @@ pub fn agree<F: Family>(b: &[u8], origin: &str, ctx: &mut Ctx) -> CaseResult {
             if flen >= 2 {
                 let h = fnv(b);
                 let k = 1 + (h >> 8) as usize % (flen - 1);
-                let (steps, what) = if h & 1 == 0 {
-                    (vec![crate::sio::Step::Chunk(k), crate::sio::Step::Pending, crate::sio::Step::Chunk(b.len() - k)], "a Pending (future re-created)")
+                // (the script is per read call: the header stage reads one byte at a time, the body stage as much as is left)
+                let hl = refdec::frame_bounds(b).map(|x| x.0).unwrap_or(2);
+                let mut steps: Vec<crate::sio::Step> = vec![crate::sio::Step::Chunk(1); k.min(hl)];
+                if k > hl {
+                    steps.push(crate::sio::Step::Chunk(k - hl));
+                }
+                let what = if h & 1 == 0 {
+                    steps.push(crate::sio::Step::Pending);
+                    "a Pending (future re-created)"
                 } else {
-                    (vec![crate::sio::Step::Chunk(k), crate::sio::Step::End, crate::sio::Step::Chunk(b.len() - k)], "the end of a slice (caller polls again with the same state)")
+                    steps.push(crate::sio::Step::End);
+                    "the end of a slice (caller polls again with the same state)"
                 };
                 let two = fam::dec_poll_styled::<F>(b, &steps, u64::MAX, None, false, ((h >> 1) & 3) as u8).result;
                 let same = match (&poll, &two) {
